@@ -106,3 +106,10 @@ Definition direct (K : nat) (stranded : bool) (thr mode route : N) (reads : list
          | None => None
          end
   end.
+
+(* C06: reverse-complementing a subset of the reads (whole reads: no boundary extensions to flip) *)
+Fixpoint flip_lreads (fs : list bool) (reads : list lread) : list lread :=
+  match reads with
+  | [] => []
+  | r :: t => ((if hd false fs then rc (fst r) else fst r), snd r) :: flip_lreads (tl fs) t
+  end.
